@@ -61,4 +61,44 @@ theorem finish_cache_pubs (r : Bool) (rp b : List MPub) (top e off : Nat) (w : B
       have := hmax x hx
       omega
 
+/-- two strictly increasing (by offset) lists with the same members are equal -/
+theorem eq_of_sorted_mem_iff (a b : List MPub)
+    (ha : a.Pairwise (fun x y => x.offset < y.offset)) (hb : b.Pairwise (fun x y => x.offset < y.offset))
+    (h : ∀ x, x ∈ a ↔ x ∈ b) : a = b := by
+  induction a generalizing b with
+  | nil =>
+    cases b with
+    | nil => rfl
+    | cons y ys => exact absurd ((h y).mpr List.mem_cons_self) (by simp)
+  | cons x xs ih =>
+    cases b with
+    | nil => exact absurd ((h x).mp List.mem_cons_self) (by simp)
+    | cons y ys =>
+      rw [List.pairwise_cons] at ha hb
+      have hxy : x = y := by
+        rcases List.mem_cons.mp ((h x).mp List.mem_cons_self) with h1 | h1
+        · exact h1
+        · rcases List.mem_cons.mp ((h y).mpr List.mem_cons_self) with h2 | h2
+          · exact h2.symm
+          · have := ha.1 y h2; have := hb.1 x h1; omega
+      subst hxy
+      congr 1
+      apply ih ys ha.2 hb.2
+      intro z
+      constructor
+      · intro hz
+        rcases List.mem_cons.mp ((h z).mp (List.mem_cons_of_mem _ hz)) with h1 | h1
+        · subst h1; have := ha.1 z hz; omega
+        · exact h1
+      · intro hz
+        rcases List.mem_cons.mp ((h z).mpr (List.mem_cons_of_mem _ hz)) with h1 | h1
+        · subst h1; have := hb.1 z hz; omega
+        · exact h1
+
+theorem toM_pass {pass : Pub → Bool} {p : Pub} (h : pass p = true) : toM pass p = toPlain p := by
+  simp [toM, toPlain, h]
+
+theorem toM_filtered (pass : Pub → Bool) (p : Pub) : (toM pass p).filtered = false ↔ pass p = true := by
+  simp [toM]
+
 end CentrifugeVerif.Recovery
